@@ -13,17 +13,21 @@ os.makedirs(dst, exist_ok=True)
 for f in os.listdir(src):
     if os.path.isfile(os.path.join(src, f)):
         shutil.copy(os.path.join(src, f), os.path.join(dst, f))
-subprocess.run(["git", "-C", "/repo", "apply", os.path.join(dst, "patch.diff")], check=True)
+import tempfile
+scratch = tempfile.mkdtemp(prefix="ipcv-save-")
+subprocess.run(["rsync", "-a", "--exclude", "target", "--exclude", ".git", "/repo/", scratch + "/"], check=True)
+subprocess.run(["patch", "-p1", "-s", "-i", os.path.join(dst, "patch.diff")], cwd=scratch, check=True)
 detected = {}
 try:
+    env = dict(os.environ, IPCV_REPO=scratch, IPCV_EVIDENCE_DIR=os.path.join(scratch, ".ev"))
     for i in range(1, 21):
         p = "C%02d" % i
-        r = subprocess.run(["./check", p], cwd="/verif", capture_output=True, text=True)
+        r = subprocess.run(["./check", p], cwd="/verif", capture_output=True, text=True, env=env)
         keys = re.findall(r"^VIOLATION property=\S+ replay=\S+ rule=(\S+) key=(.*)$", r.stdout, re.M)
         if keys:
             detected[p] = [k[1] for k in keys]
 finally:
-    subprocess.run(["git", "-C", "/repo", "checkout", "--", "."], check=True)
+    shutil.rmtree(scratch, ignore_errors=True)
 files = re.findall(r"^diff --git a/(\S+)", open(os.path.join(dst, "patch.diff")).read(), re.M)
 meta = {
     "id": "%s-%s" % (prop, letter),
@@ -39,7 +43,7 @@ meta = {
         "demo_passes_without_change": confirmed != "no",
         "note": confirmed if confirmed not in ("yes", "no") else "",
     },
-    "checks_run": "git -C /repo apply patch.diff; ./check C01..C20; git -C /repo checkout -- .",
+    "checks_run": "patch applied to a scratch copy of /repo (rsync, outside /repo and /verif); ./check C01..C20 with IPCV_REPO pointing at the copy; copy removed",
     "detected_by": detected,
     "detected": bool(detected),
     "detected_by_own_property": prop in detected,
